@@ -14,24 +14,28 @@ location, i.e. outside /repo and /verif) or into an in-memory `io.BytesIO`, read
   ndarray / numpy scalar); text must come back as text (bytes are not equal to str), numbers as numbers (1 != '1'),
   None as None, nested dicts recursively.
 
-Clauses of the statement and the oracle covering them
+Clauses of the statement and the oracle (domain) covering them
   C16/rdms       RDMs: dissimilarities, n_rdm/n_cond, the three descriptor dicts, measure (string, unicode, None);
-                 all descriptor value types of the quantifier; hdf5 + pkl; path (with suffix dispatch of `load_rdm`
-                 for .h5/.hdf5/.pkl and explicit file_type on a neutral suffix), overwrite=True on a fresh path, open
-                 binary file handle (read back through the handle and by path), BytesIO; "saving does not change
-                 the in-memory object" (strict, type-sensitive comparison with the snapshot); `loaded == original`
-                 whenever `__eq__` is usable on that object at all (it is for `copy == original`); the same
-                 follow-up selection on original and loaded object gives equal objects.
+                 all harmless descriptor value types of the quantifier together; hdf5 + pkl; path (with suffix dispatch
+                 of `load_rdm` for .h5/.hdf5/.pkl and explicit file_type on a neutral suffix), overwrite=True on a fresh
+                 path, open binary file handle (read back through the handle and by path), BytesIO; "saving does not
+                 change the in-memory object" (strict, type-sensitive comparison with the snapshot); `loaded == original`
+                 whenever `__eq__` can recognise an equal twin of both objects at all (it cannot with array-valued
+                 `descriptors` or NaNs); the same follow-up selection on original and loaded object gives equal objects.
   C16/dataset    the same for Dataset and TemporalDataset (measurements incl. NaN/inf/float32/int, size-1 dimensions,
                  obs/channel/time descriptors, `descriptors` incl. a stored noise precision matrix); class preserved.
+  (domain C16/descriptor-values, oracles C16/rdms and C16/dataset)
+                 totality over descriptor value types: objects with exactly ONE descriptor of each value kind, in each
+                 descriptor dict, with plain / unicode / slash-containing keys.  The known findings live here.
   C16/model      every model class (Model, ModelFixed, ModelSelect, ModelWeighted, ModelInterpolate):
                  to_dict -> write_dict_hdf5/pkl -> read_dict -> model_from_dict: same class, name, n_param, rdm_obj
                  fields, predict()/predict(theta)/predict_rdm(theta); to_dict leaves the model unchanged.
-  C16/result     Result: models in the same ORDER with class/name/rdm/predictions (1..21 models, 101 in thorough),
+  C16/result     Result: models in the same ORDER with class/name/rdm/predictions (1..21 models, 101/112 in thorough),
                  evaluations, variances (None/0-d/1-d/2-d/3-d, with and without noise-ceiling rows), dof, noise
-                 ceiling, method strings, n_rdm/n_pattern (None or int); get_means/get_sem/get_ci,
-                 test_all/test_pairwise/test_zero/test_noise for 't-test', 'bootstrap', 'ranksum' and summary()
-                 give identical outputs (or the same exception type) before and after; in-memory object unchanged.
+                 ceiling, method strings, n_rdm/n_pattern (None or int), derived model_var/diff_var/noise_ceil_var;
+                 get_means/get_sem/get_ci, test_all/test_pairwise/test_zero/test_noise ('t-test', 'bootstrap'; 'ranksum':
+                 test_all for <= 4 models, test_zero/test_noise above) and summary() give identical outputs (or the
+                 same exception type) before and after; in-memory object unchanged.
   C16/history    RDMs / Dataset / TemporalDataset obtained by every sequence of <= 2 (thorough: <= 3) C10/C11
                  operations and by seeded sequences of length 4, then saved and loaded (expected = snapshot after
                  the history).  An operation that raises on the current object is skipped (that is C10/C11/C12's
@@ -42,7 +46,8 @@ Clauses of the statement and the oracle covering them
                  names (read with h5py / pickle directly) contains no name of the old object and equals the tree of
                  a fresh save; pkl: overwrite=True ditto.
   C16/dispatch   load_rdm / load_dataset / load_results: suffix dispatch (.h5, .hdf5 -> hdf5, .pkl -> pickle), explicit
-                 file_type wins over the suffix, anything else raises ValueError('filetype not understood').
+                 file_type wins over the suffix, anything else raises ValueError('filetype not understood'); a file of
+                 the other format is never returned as an object silently.
 
 NOT covered by this tier
   * "for all" -- these are bounded domains (see the `domain` strings); the object<->dict reasoning for all inputs is
@@ -51,10 +56,13 @@ NOT covered by this tier
   * refusal on an existing file given as an open HANDLE with overwrite=False (the statement only promises it for paths),
     pickle without overwrite on an existing path (statement is silent; plain 'wb' truncation).
   * `Result.fitter` (not part of the saved dict and not named in the statement); files written by older versions.
-  * histories longer than 4 operations; DataFrame round trips (C10/C11).
+  * container types of loaded descriptor values (list vs ndarray vs numpy scalar): the statement asks for element-wise
+    equal values, so `[1, 2]` loaded as `array([1, 2])` and `4` loaded as `array(4)` count as equal.
+  * histories longer than 4 operations; DataFrame round trips (C10/C11); non-string dict keys; RDMs with one condition.
 
-Known findings on the unchanged tree (own input_class each, see C16_findings.md):
-  tuple-descriptor, unicode-string-array, ragged-list-descriptor, mixed-list-descriptor.
+Known findings on the unchanged tree (all HDF5 only; own input_class each, all under the obligation
+`C16/_write_to_group/oracle/descriptor-value-types`; see C16_findings.md):
+  tuple-descriptor, unicode-string-array, ragged-list-descriptor, mixed-list-descriptor, slash-in-key.
 """
 import copy
 import io
